@@ -31,18 +31,18 @@ type LoopSpec struct {
 }
 
 type Contract struct {
-	Key       string
-	PkgPath   string
-	Requires  []Clause
-	Ensures   []Clause
-	Loops     map[int]*LoopSpec
-	Modifies  *ModSet
+	Key         string
+	PkgPath     string
+	Requires    []Clause
+	Ensures     []Clause
+	Loops       map[int]*LoopSpec
+	Modifies    *ModSet
 	modifiesSrc []string
-	Decreases *Clause
-	Trusted   bool
-	Auto      bool
-	File      string
-	OnUse     func(fr *Frame, callee *ssa.Function, args []Val, res Val, pre *State)
+	Decreases   *Clause
+	Trusted     bool
+	Auto        bool
+	File        string
+	OnUse       func(fr *Frame, callee *ssa.Function, args []Val, res Val, pre *State)
 }
 
 type PredDef struct {
@@ -54,9 +54,33 @@ type PredDef struct {
 }
 
 type SpecFn struct {
-	Name string
-	Args []string
-	Ret  string
+	Name    string
+	Args    []string
+	Ret     string
+	Defined bool
+}
+
+// splitTop splits at commas that are not nested in parentheses
+func splitTop(s string) []string {
+	var out []string
+	d, last := 0, 0
+	for i, c := range s {
+		switch c {
+		case '(':
+			d++
+		case ')':
+			d--
+		case ',':
+			if d == 0 {
+				out = append(out, s[last:i])
+				last = i + 1
+			}
+		}
+	}
+	if strings.TrimSpace(s[last:]) != "" {
+		out = append(out, s[last:])
+	}
+	return out
 }
 
 var ws = regexp.MustCompile(`\s+`)
@@ -195,6 +219,25 @@ func (e *Engine) loadContractFile(path string) error {
 			e.SpecFns[sf.Name] = sf
 		case "axiom":
 			e.Axioms = append(e.Axioms, rest)
+		case "specrec":
+			// specrec name(a Sort, b Sort) Sort = <smt body>   (define-fun-rec sf_name)
+			m := regexp.MustCompile(`^(\w+)\((.*?)\)\s*(\S+)\s*=\s*(.*)$`).FindStringSubmatch(rest)
+			if m == nil {
+				return fmt.Errorf("bad specrec: %s", l)
+			}
+			sf := &SpecFn{Name: m[1], Ret: m[3], Defined: true}
+			var ps []string
+			for _, a := range splitTop(m[2]) {
+				a = strings.TrimSpace(a)
+				i := strings.IndexAny(a, " \t")
+				if i < 0 {
+					return fmt.Errorf("bad specrec param %q", a)
+				}
+				sf.Args = append(sf.Args, strings.TrimSpace(a[i+1:]))
+				ps = append(ps, "("+a[:i]+" "+strings.TrimSpace(a[i+1:])+")")
+			}
+			e.SpecFns[sf.Name] = sf
+			e.SpecDefs = append(e.SpecDefs, fmt.Sprintf("(define-fun-rec sf_%s (%s) %s %s)", sf.Name, strings.Join(ps, " "), sf.Ret, m[4]))
 		case "requires", "ensures", "decreases":
 			if cur == nil {
 				return fmt.Errorf("clause outside func: %s", l)
@@ -700,27 +743,49 @@ func (env *SpecEnv) lookupLocal(name string) (SV, bool) {
 		}
 	}
 	if env.loop != nil {
-		// a variable not modified by the loop: every reference inside the loop that is defined outside it
-		var cand ssa.Value
-		n := 0
+		// reaching definition at the loop header: among the values the name ever denotes, those defined in a
+		// block that dominates the header; the one deepest in the dominator tree is the current one.
+		var best ssa.Value
+		bestDepth := -1
+		hdr := env.loop.header
 		for _, v := range vs {
-			ins, ok := v.(ssa.Instruction)
-			if ok && env.loop.blocks[ins.Block()] {
+			if _, isC := v.(*ssa.Const); isC {
+				if bestDepth < 0 {
+					best, bestDepth = v, 0
+				}
 				continue
 			}
 			if _, have := fr.vals[v]; !have {
-				if _, isC := v.(*ssa.Const); !isC {
+				continue
+			}
+			ins, ok := v.(ssa.Instruction)
+			if !ok {
+				if bestDepth < 1 {
+					best, bestDepth = v, 1 // parameter
+				}
+				continue
+			}
+			b := ins.Block()
+			if b == hdr {
+				if _, isPhi := v.(*ssa.Phi); !isPhi {
 					continue
 				}
+			} else if !b.Dominates(hdr) || env.loop.blocks[b] {
+				continue
 			}
-			cand = v
-			n++
+			d := 2
+			for x := b; x != nil; x = x.Idom() {
+				d++
+			}
+			if d > bestDepth {
+				best, bestDepth = v, d
+			}
 		}
-		if n == 1 {
-			if c, ok := cand.(*ssa.Const); ok {
+		if best != nil {
+			if c, ok := best.(*ssa.Const); ok {
 				return SV{T: c.Type(), V: fr.constVal(c)}, true
 			}
-			return SV{T: cand.Type(), V: fr.vals[cand]}, true
+			return SV{T: best.Type(), V: fr.vals[best]}, true
 		}
 	}
 	return SV{}, false
@@ -1016,7 +1081,9 @@ func (env *SpecEnv) evalCall(x *ast.CallExpr) (SV, error) {
 		if len(args) != len(sf.Args) {
 			return SV{}, fmt.Errorf("specfn %s expects %d leaves, got %d", name, len(sf.Args), len(args))
 		}
-		q.declareFun("sf_"+sf.Name, sf.Args, sf.Ret)
+		if !sf.Defined {
+			q.declareFun("sf_"+sf.Name, sf.Args, sf.Ret)
+		}
 		t := "(sf_" + sf.Name + " " + strings.Join(args, " ") + ")"
 		if len(args) == 0 {
 			t = "sf_" + sf.Name
@@ -1029,4 +1096,40 @@ func (env *SpecEnv) evalCall(x *ast.CallExpr) (SV, error) {
 	return SV{}, fmt.Errorf("unknown spec function %s", exprString(x.Fun))
 }
 
-var specBuiltins = map[string]func(env *SpecEnv, x *ast.CallExpr) (SV, error){}
+var specBuiltins map[string]func(env *SpecEnv, x *ast.CallExpr) (SV, error)
+
+func init() {
+	specBuiltins = map[string]func(env *SpecEnv, x *ast.CallExpr) (SV, error){
+		// mem(s): the current memory array holding the elements of slice s (single-leaf element types)
+		"mem": func(env *SpecEnv, x *ast.CallExpr) (SV, error) {
+			a, err := env.eval(x.Args[0])
+			if err != nil {
+				return SV{}, err
+			}
+			sl, ok := underlyingOrNil(a.T).(*types.Slice)
+			if !ok {
+				return SV{}, fmt.Errorf("mem() of non-slice")
+			}
+			l := layoutOf(sl.Elem())
+			if len(l.leaves) != 1 {
+				return SV{}, fmt.Errorf("mem() needs a single-leaf element type")
+			}
+			famLeafSort[l.leaves[0].Arr] = l.leaves[0].Sort
+			return SV{S: "(Array Int " + l.leaves[0].Sort + ")", V: Val{C: []string{env.fr.q.get(env.st, l.leaves[0].Arr)}}}, nil
+		},
+		"ptr": func(env *SpecEnv, x *ast.CallExpr) (SV, error) {
+			a, err := env.eval(x.Args[0])
+			if err != nil {
+				return SV{}, err
+			}
+			return intSV(a.V.C[0]), nil
+		},
+		"max0": func(env *SpecEnv, x *ast.CallExpr) (SV, error) {
+			a, err := env.evalInt(x.Args[0])
+			if err != nil {
+				return SV{}, err
+			}
+			return intSV("(ite (>= " + a + " 0) " + a + " 0)"), nil
+		},
+	}
+}
